@@ -401,6 +401,99 @@ def _s1_allow_lists(program, res):
                         f"({example} builds; Pandas then raises AttributeError / 'not a valid function name for transform')")
 
 
+def windowed_classification_rules(program, res, rule="C26-S1"):
+    """what decides that an extend is 'windowed' (and therefore subject to the window rules, and emitted with OVER in SQL)"""
+    er = program.module("expr_rep")
+    iw = er.functions.get("implies_windowed")
+    if iw is None:
+        raise AnalysisError("anchor vanished: expr_rep.implies_windowed")
+    res.analysed(iw)
+    # (a) the test looks at every operator of each expression, not only at its root
+    def _calls(tree, name, skip_defs=False):
+        out = []
+        stack = list(ast.iter_child_nodes(tree))
+        while stack:
+            n = stack.pop()
+            if skip_defs and isinstance(n, (ast.FunctionDef, ast.Lambda)):
+                continue
+            if isinstance(n, ast.Call) and isinstance(n.func, ast.Name) and n.func.id == name:
+                out.append(n)
+            stack.extend(ast.iter_child_nodes(n))
+        return out
+
+    walkers = [f for f in ast.walk(iw.node) if isinstance(f, ast.FunctionDef)
+               and any(isinstance(n, ast.Attribute) and n.attr == "args" for n in ast.walk(f))
+               and any(isinstance(n, ast.Attribute) and n.attr == "op" for n in ast.walk(f))
+               and _calls(f, f.name)]
+    # the walker is what the top-level loop consults (a walker that exists but is not called decides nothing)
+    looks_inside = bool(walkers)
+    recursive = any(w is iw.node or _calls(iw.node, w.name, skip_defs=True) for w in walkers)
+    if looks_inside and recursive:
+        res.ok(rule, "implies_windowed walks the whole expression tree (an aggregate nested in an expression makes the step windowed)")
+    else:
+        res.fail_at(rule, iw, "windowed-test-looks-at-root-only",
+                    "implies_windowed tests only the top-level operator of each expression: extend({'s': 'x / x.sum()'}) is classified as row-wise, the "
+                    "'only simple operators' rule is skipped and SQL emits a bare SUM(...) without OVER — one row instead of N")
+    # (b) every name the executors realise as a window / aggregate function is in the vocabulary that makes a step windowed
+    vs = er.consts.get("fn_names_that_imply_windowed_situation")
+    if not isinstance(vs, ast.Set):
+        raise AnalysisError("anchor vanished: expr_rep.fn_names_that_imply_windowed_situation (set literal)")
+    vocab = {e.value for e in vs.elts if isinstance(e, ast.Constant)}
+    pe = program.method("pandas_base", "PandasModelBase", "_extend_step", inherited=False)
+    zero_vars = {st.targets[0].id for st in ast.walk(pe.node) if isinstance(st, ast.Assign) and len(st.targets) == 1 and isinstance(st.targets[0], ast.Name)
+                 and unparse(st.value).endswith(".op[1:]")} or {"zero_op"}
+    zero = set()
+    for c in ast.walk(pe.node):
+        if isinstance(c, ast.Compare) and isinstance(c.left, ast.Name) and c.left.id in zero_vars and len(c.ops) == 1:
+            if isinstance(c.ops[0], ast.In) and isinstance(c.comparators[0], (ast.Set, ast.List, ast.Tuple)):
+                zero |= {e.value for e in c.comparators[0].elts if isinstance(e, ast.Constant)}
+            elif isinstance(c.ops[0], ast.Eq) and isinstance(c.comparators[0], ast.Constant):
+                zero.add(c.comparators[0].value)
+    if not zero:
+        raise AnalysisError("Pandas _extend_step: zero-argument window operators not found")
+    from .. import facts as _facts
+    cat = program.module("op_catalog")
+    catalogued = {c.value for c in ast.walk(cat.tree) if isinstance(c, ast.Constant) and isinstance(c.value, str)}
+    need = {"_" + z for z in zero} | {a for a in _facts.WHOLE_PARTITION_AGGREGATORS if a in catalogued}
+    for nm in sorted(need):
+        if nm in vocab or nm.lstrip("_") in vocab and not nm.startswith("_"):
+            res.ok(rule, f"`{nm}` makes an extend windowed")
+        else:
+            res.fail(rule, "expr_rep:fn_names_that_imply_windowed_situation", f"window-function-not-in-vocabulary:{nm}",
+                     f"`{nm}` is realised as a window / aggregate function by the executors but is not in fn_names_that_imply_windowed_situation: "
+                     f"extend({{'s': '{nm}()' if nm.startswith('_') else 'x.' + nm + '()'}}) without partition_by is treated as row-wise — SQL returns one row, Pandas raises",
+                     "data_algebra/expr_rep.py", getattr(vs, "lineno", 0))
+
+
+def common_keys_rule(program, res, rule="C26-S1"):
+    """check_all_common_keys_in_equi_spec: a common column counts as a key only when it is equated with itself (pairwise over zip(on_a, on_b))"""
+    init = program.cls("view_representations", "NaturalJoinNode").methods["__init__"]
+    res.analysed(init)
+    guards = [n for n in ast.walk(init.node) if isinstance(n, ast.If) and "check_all_common_keys_in_equi_spec" in unparse(n.test)]
+    if not guards:
+        res.fail_at(rule, init, "common-keys-flag-unused",
+                    "no branch of NaturalJoinNode.__init__ tests check_all_common_keys_in_equi_spec: the requested check is never made", init.node)
+        return
+    body = guards[0]
+
+    def _pairwise(c) -> bool:
+        # a comprehension whose target is a pair (a, b) and whose filter compares exactly those two names for equality
+        g = c.generators[0]
+        if not (isinstance(g.target, ast.Tuple) and len(g.target.elts) == 2 and all(isinstance(e, ast.Name) for e in g.target.elts)):
+            return False
+        pair = {e.id for e in g.target.elts}
+        return any(isinstance(i, ast.Compare) and len(i.ops) == 1 and isinstance(i.ops[0], ast.Eq)
+                   and {x.id for x in [i.left, i.comparators[0]] if isinstance(x, ast.Name)} == pair for i in g.ifs)
+
+    pairwise = any(isinstance(c, (ast.ListComp, ast.SetComp, ast.GeneratorExp)) and _pairwise(c) for c in ast.walk(body))
+    if pairwise:
+        res.ok(rule, "check_all_common_keys_in_equi_spec: keys are the pairs (a, b) of zip(on_a, on_b) with a == b")
+    else:
+        res.fail_at(rule, init, "common-keys-not-pairwise",
+                    "the common-keys check subtracts a set built from on_a and on_b independently: on=[('k','v'),('v','k')] passes although neither k nor v "
+                    "is equated with itself, and b's values of both columns are silently coalesced away", body)
+
+
 def run(program, res, tier):
     res.rule("C26-S1", "each documented construction rule has a raise whose own guard depends on the rule's inputs")
     res.rule("C26-S2", "every non-leaf node kind has build-time validation rows")
@@ -411,6 +504,8 @@ def run(program, res, tier):
     _s1_lookup_symbol(program, res)
     _s1_use_and_produce(program, res)
     _s1_allow_lists(program, res)
+    windowed_classification_rules(program, res)
+    common_keys_rule(program, res)
     _s2(program, model, res)
     c06._s3_s4(program, model, res, s3="C26-S3", s4="C26-S3")
     _unraised_exceptions(program, res)
